@@ -19,6 +19,7 @@ DECIDED = [
     'R3: the elision loop runs over exactly the four merge-control flags (never over user metadata) and elides a flag only when, under the library\'s own getters and _get_child_kwargs, the node and a child of every type default keep the same effective value (finite tables; two elision cases are known findings).',
     'R4: function nodes are represented with their argument *mapping* (keys preserved), and tagged mappings / sequences are emitted with represent_mapping / represent_sequence of that data.',
     'R6: PathNode.ayns.value carries source_file for every spelling of the reference points that evaluation resolves against the node\'s own file (file, parent, parent(n)).',
+    'R7: the representer (and the helpers only it uses) writes no module / class level state.',
     'R5: a tagged scalar is written as repr() of its native value (quoting preserved so that the implicit resolver gives the same type back).',
 ]
 UNDECIDED = ['the round trip as a whole (text stability, scalar quoting by PyYAML, metadata pickling);', 'priority elision for trees produced by merging (children attached later carry no priority).']
@@ -383,6 +384,21 @@ def r6(repo, run):
         run.ok('C18.R6', fi, 'PathNode.ayns.value (%d reference-point spellings)' % rows, 'source_file written for every reference point that evaluation resolves against the node\'s own file (%s)' % sorted(needs))
 
 
+def r7(repo, run):
+    """the representer is a function of (node, ancestor metadata on the dumper): it keeps no state of its own between nodes - a
+    module / class level cache filled while dumping makes the text of one node depend on which nodes were dumped before"""
+    from .. import shared
+    from .common import only_reached_from
+    rep = repo.func('yaml._node_representer')
+    fam = [rep] + [g for g in rep.module.functions.values() if g is not rep and only_reached_from(repo, g.qualname, {rep.qualname})]
+    ws = [w for w in shared.shared_writes(repo, fam) if not w.kind.startswith('maybe-')]
+    if ws:
+        w = ws[0]
+        run.violation('C18.R7', w.fi, w.text()[:100], 'the representer stores state in %s %s while dumping: what is written for a node then depends on the nodes dumped before it in this process (e.g. a default captured from the first node of a type)' % w.root)
+    else:
+        run.ok('C18.R7', rep, 'no write to module / class level state in the representer (%d functions)' % len(fam), 'the dump of a node depends on the node and its ancestors only')
+
+
 def check(repo, run, tier):
     g = Guard()
     g(r1, repo, run)
@@ -391,6 +407,7 @@ def check(repo, run, tier):
     g(r4, repo, run)
     g(r5, repo, run)
     g(r6, repo, run)
+    g(r7, repo, run)
     g.done()
 
 
